@@ -183,8 +183,12 @@ func c07Enumerate(s *pbt.Session, L int) {
 
 func genArg(t *rapid.T, label string) string {
 	n := rapid.IntRange(1, 12).Draw(t, label+"len")
-	if rapid.IntRange(0, 20).Draw(t, label+"long") == 0 {
+	switch rapid.IntRange(0, 400).Draw(t, label+"long") {
+	case 0, 1, 2, 3, 4, 5, 6, 7, 8, 9, 10, 11, 12, 13, 14, 15, 16, 17, 18, 19:
 		n = rapid.IntRange(13, 80).Draw(t, label+"len2")
+	case 20:
+		// longer than the parser's 4096-byte read buffer
+		n = rapid.SampledFrom([]int{4000, 4085, 4096, 4097, 5000}).Draw(t, label+"len3")
 	}
 	b := make([]byte, n)
 	for i := range b {
@@ -238,7 +242,7 @@ func genDelivery(t *rapid.T) hx.Delivery {
 
 // mutate applies one grammar-aware edit to a valid header text.
 func c07Mutate(t *rapid.T, in []byte) ([]byte, string) {
-	kind := rapid.SampledFrom([]string{"ins-space", "ins-cr", "ins-lf", "ins-pad", "del-byte", "dup-byte", "flip-case", "noncanon-b64", "split-line", "join-line", "ins-ctl", "ins-utf8", "swap-lines", "ins-tab", "trunc"}).Draw(t, "mut")
+	kind := rapid.SampledFrom([]string{"ins-space", "ins-cr", "ins-lf", "ins-pad", "del-byte", "dup-byte", "flip-case", "noncanon-b64", "split-line", "join-line", "ins-ctl", "ins-utf8", "swap-lines", "ins-tab", "trunc", "extend-line"}).Draw(t, "mut")
 	if len(in) == 0 {
 		return in, kind
 	}
@@ -323,6 +327,17 @@ func c07Mutate(t *rapid.T, in []byte) ([]byte, string) {
 		return bytes.Join(lines, nil), kind
 	case "trunc":
 		return append([]byte{}, in[:pos]...), kind
+	case "extend-line":
+		// append 1..4 base64 characters to the line containing pos
+		for i := pos; i < len(in); i++ {
+			if in[i] == '\n' {
+				add := rapid.SampledFrom([]string{"Q", "QQ", "QUE", "QUFB", "A", "AA"}).Draw(t, "ext")
+				out := append([]byte{}, in[:i]...)
+				out = append(out, add...)
+				return append(out, in[i:]...), kind
+			}
+		}
+		return in, kind
 	}
 	return in, kind
 }
@@ -435,6 +450,23 @@ func TestC07(t *testing.T) {
 		}
 		return nil
 	}
+	// stanza lines longer than any internal read buffer
+	pbt.Each(s, "marshal-roundtrip", func(yield func(hdrCase)) {
+		n := 0
+		for _, l := range []int{4000, 4085, 4090, 4096, 4097, 5000, 8192, 70000} {
+			long := strings.Repeat("a", l)
+			for _, h := range []refage.Header{
+				{Stanzas: []refage.Stanza{{Type: long, Body: []byte("b")}}, MAC: hx.PRG(1, 32)},
+				{Stanzas: []refage.Stanza{{Type: "t", Args: []string{"x", long}, Body: hx.PRG(2, 48)}, {Type: "u", Args: []string{long, long}}}, MAC: hx.PRG(1, 32)},
+			} {
+				for _, d := range []hx.Delivery{{Mode: "whole"}, {Mode: "bufio", BufSize: 4096}, {Mode: "pieces", Pieces: []int{1000}}} {
+					yield(hdrCase{H: h, Delivery: d})
+					n++
+				}
+			}
+		}
+		s.St.Exhaust("headers with a type or argument of 4000..70000 bytes x 3 deliveries", int64(n))
+	}, checkB)
 	pbt.Rapid(s, "marshal-roundtrip", s.N(15000, 100000), func(t *rapid.T) hdrCase {
 		return hdrCase{H: genHeader(t, 6), Delivery: genDelivery(t)}
 	}, checkB)
